@@ -371,8 +371,24 @@ class _Sub(ast.NodeTransformer):
 
 
 class SymExec:
-    def __init__(self, fn, sigs=None, limit=400):
+    """helpers: {name: FunctionDef} of module-level private functions the
+    executor may SEE THROUGH (see summarisable_helpers): a call `h(args)` in
+    an evaluated expression is replaced, path by path, by the symbolic value
+    of each return path of `h` with the parameters bound to the arguments
+    (the branch conditions of that path join those of the caller; a raise
+    path of the helper ends the caller's path).  This is the path-wise
+    counterpart of sa/inline.py for helpers whose `return`s are not in tail
+    position (inside try/except): "extract a private helper" is undone in the
+    symbolic value instead of in the source."""
+
+    def __init__(self, fn, sigs=None, limit=400, helpers=None, depth=0):
         self.fn, self.sigs, self.limit = fn, sigs or {}, limit
+        self.helpers = dict(helpers or {})
+        self.helpers.pop(getattr(fn, 'name', None), None)        # (no recursion)
+        self.depth = depth
+        self.seen_through = set()
+        self._opaque = set()
+        self._summaries = {}
         self.paths = []
         env = {p: ast.Name(id=p, ctx=ast.Load()) for p in params(fn)}
         outs = self.block(fn.body, [_State(env, {})])
@@ -405,7 +421,117 @@ class SymExec:
     def values(self, e, st):
         """[(symbolic value, state)]: conditional expressions fork the path."""
         v = self.subst(e, st)
-        return self._split(v, st)
+        if not self.helpers:
+            return self._split(v, st)
+        out = []
+        for v1, s1 in self._split(v, st):
+            out += self._through_helpers(v1, s1)
+        return out
+
+    # -- private helpers seen through (path summaries)
+    def _helper_call(self, v):
+        """First call of a summarisable helper in `v` that is evaluated
+        unconditionally (not under a lambda / comprehension / short-circuit)."""
+        stack = [v]
+        while stack:
+            n = stack.pop(0)
+            if isinstance(n, (ast.Lambda, ast.ListComp, ast.SetComp, ast.DictComp, ast.GeneratorExp, ast.BoolOp, ast.IfExp)):
+                continue
+            if isinstance(n, ast.Call) and isinstance(n.func, ast.Name) and n.func.id in self.helpers and \
+                    n.func.id not in self._opaque:
+                return n
+            stack = list(ast.iter_child_nodes(n)) + stack
+        return None
+
+    def _summary(self, name):
+        """Return/raise paths of helper `name` over its own parameters, or None
+        if it cannot be summarised as a function of its arguments."""
+        if name in self._summaries:
+            return self._summaries[name]
+        h = self.helpers[name]
+        res = None
+        try:
+            if self.depth >= 3:
+                raise Unrecognised('helper nesting too deep')
+            ps = params(h)
+            a = h.args
+            if a.vararg or a.kwarg or h.decorator_list or isinstance(h, ast.AsyncFunctionDef):
+                raise Unrecognised('helper signature')
+            for x in ast.walk(h):
+                if isinstance(x, (ast.Yield, ast.YieldFrom, ast.Await, ast.Global, ast.Nonlocal)):
+                    raise Unrecognised('generator / global state')
+                if isinstance(x, ast.AugAssign) and isinstance(x.target, ast.Name) and x.target.id in ps:
+                    raise Unrecognised('in-place update of a parameter')
+            sub = SymExec(h, self.sigs, self.limit, self.helpers, self.depth + 1)
+            for hp in sub.paths:
+                for q in ps:
+                    val = hp.env.get(q)
+                    # the caller's objects are untouched: no store / mutating call reached (an alias of) a parameter
+                    if val is None or q in getattr(hp, 'stale', ()) or any(
+                            isinstance(c, ast.Call) and isinstance(c.func, ast.Name) and c.func.id in ('_store', '_setattr', '_mut')
+                            for c in ast.walk(val)):
+                        raise Unrecognised('helper may update its argument `%s`' % q)
+            res = sub.paths
+            self.seen_through |= sub.seen_through
+        except (Unrecognised, RecursionError):
+            res = None
+        self._summaries[name] = res
+        return res
+
+    def _through_helpers(self, v, st):
+        call = self._helper_call(v)
+        if call is None:
+            return [(v, st)]
+        name = call.func.id
+        h = self.helpers[name]
+        summary = self._summary(name)
+        bound = None
+        if summary is not None:
+            from ..inline import _bind, _Refuse
+            try:
+                bound, _ = _bind(h, call, False)
+            except _Refuse:
+                bound = None
+        if bound is not None:
+            # free (module-level) names of the helper must not be captured by the caller's parameters
+            free = {x.id for hp in summary for e in hp.exprs() for x in ast.walk(e) if isinstance(x, ast.Name)} - set(bound)
+            if free & set(params(self.fn)):
+                bound = None
+        if bound is None:
+            self._opaque.add(name)
+            return self._through_helpers(v, st)
+        self.seen_through.add(name)
+
+        def inst(node):
+            bnd = set()
+            for x in ast.walk(node):
+                if isinstance(x, ast.comprehension):
+                    bnd.update(target_names(x.target))
+            return _Sub(bound, bnd).visit(copy.deepcopy(node))
+        out = []
+        for hp in summary:
+            s2 = st.fork()
+            for k, (pol, node) in hp.conds.items():
+                if k[0] == 'raises':
+                    s2.conds[k] = (pol, node)
+                    continue
+                s2 = self.assume(s2, inst(node), pol)
+                if s2 is None:
+                    break
+            if s2 is None:
+                continue
+            val = inst(hp.value)
+            if hp.kind == 'raise':
+                self.finish('raise', val, s2, hp.stmt)
+                continue
+
+            class R(ast.NodeTransformer):
+                def visit_Call(self, n):
+                    return val if n is call else self.generic_visit(n)
+            v2 = val if v is call else R().visit(v)
+            for v3, s3 in self._split(copy.deepcopy(v2), s2):
+                out += self._through_helpers(v3, s3)
+        return out
 
     def _split(self, v, st):
         first = None
@@ -437,7 +563,9 @@ class SymExec:
     def finish(self, kind, value, st, stmt):
         if len(self.paths) >= self.limit:
             raise Unrecognised('more than %d paths' % self.limit)
-        self.paths.append(SymPath(kind, norm(value, self.sigs), st.conds, st.env, stmt))
+        sp = SymPath(kind, norm(value, self.sigs), st.conds, st.env, stmt)
+        sp.stale = frozenset(st.stale)
+        self.paths.append(sp)
 
     def block(self, stmts, states):
         for s in stmts:
@@ -614,10 +742,42 @@ class SymExec:
         raise Unrecognised('%s statement' % type(s).__name__)
 
 
-def symexec(fn, sigs=None):
+def symexec(fn, sigs=None, helpers=None):
     """Feasible paths of a loop-free function (list of SymPath); raises
-    Unrecognised if the function cannot be modelled."""
-    return SymExec(fn, sigs).paths
+    Unrecognised if the function cannot be modelled.  `helpers`: private
+    functions to see through (see SymExec, summarisable_helpers)."""
+    return SymExec(fn, sigs, helpers=helpers).paths
+
+
+def summarisable_helpers(ck, mod):
+    """{name: FunctionDef}: module-level PRIVATE functions of `mod` that the
+    reference snapshot does not have (the products of "extract a private
+    helper"; the same set sa/inline.py works on) and that, by the package-wide
+    effects analysis, do not store into any of their parameters.  Functions
+    that exist in the reference keep their role as anchors of the rules."""
+    import os
+    cache = ck.repo.__dict__.setdefault('_msm_helpers', {})
+    if mod.rel in cache:
+        return cache[mod.rel]
+    out = {}
+    try:
+        from .. import inline, rename
+        ref_path = os.path.join(rename.REFERENCE, mod.rel)
+        if mod.kind == 'py' and os.path.exists(ref_path):
+            with open(ref_path, encoding='utf-8') as f:
+                rsrc = f.read()
+            if rsrc != mod.src:
+                hf, _ = inline.new_private_helpers(mod.tree, ast.parse(rsrc))
+                if hf:
+                    from ..patterns import shared
+                    _, ea = shared(ck.repo)
+                    for name, h in hf.items():
+                        if isinstance(h, ast.FunctionDef) and not ea.mutated_params(mod.rel, name):
+                            out[name] = h
+    except Exception:
+        out = {}
+    cache[mod.rel] = out
+    return out
 
 
 def sparsity_cond(path, operand_texts):
@@ -676,7 +836,18 @@ def norm_ws(s):
 
 def paths_or_missing(ck, rule, mod, fn, fname):
     try:
-        ps = symexec(fn, _sigs(ck))
+        ex = SymExec(fn, _sigs(ck), helpers=summarisable_helpers(ck, mod))
+        ps = ex.paths
+        if ex.seen_through:
+            # evidence: which extracted helpers the path analysis looked through
+            for h in sorted(ex.seen_through):
+                ck.analysed(mod, h)
+            rec = getattr(ck.repo, 'inlined', None)
+            if isinstance(rec, dict):
+                cur = rec.setdefault(mod.rel, {}).setdefault(fname, [])
+                for h in sorted(ex.seen_through):
+                    if h + ' (path summary)' not in cur:
+                        cur.append(h + ' (path summary)')
     except Unrecognised as e:
         ck.missing(rule, '%s is not a loop-free function the path analysis can model: %s' % (fname, e))
         return None
@@ -914,18 +1085,41 @@ def _no_convergence(ck, rule, mod, fn, F):
     a direct solver (and does not re-raise).  Decided from the shape: the
     enclosing try statements of each iterative-solver call and their handlers."""
     n = 0
-    for c in [c for c in walk_local(fn) if isinstance(c, ast.Call) and (call_name(c) or '').split('.')[-1] in _ITERATIVE]:
+    # the solver call may sit in an extracted private helper (seen through by the path analysis as well)
+    scopes, todo, helpers = [], [fn], summarisable_helpers(ck, mod)
+    while todo:
+        g = todo.pop(0)
+        if any(g is x for x in scopes):
+            continue
+        scopes.append(g)
+        for c in walk_local(g):
+            if isinstance(c, ast.Call) and isinstance(c.func, ast.Name) and c.func.id in helpers:
+                todo.append(helpers[c.func.id])
+    for g, c in [(g, c) for g in scopes for c in walk_local(g)
+                 if isinstance(c, ast.Call) and (call_name(c) or '').split('.')[-1] in _ITERATIVE]:
         n += 1
         construct = 'non-convergence of the iterative eigensolver %s' % (call_name(c) or '').split('.')[-1]
-        handler = None
-        node, par = c, mod.parent.get(c)
-        while par is not None and par is not fn:
-            if isinstance(par, ast.Try) and any(node is b or any(node is x for x in ast.walk(b)) for b in par.body):
-                for h in par.handlers:
-                    names = [h.type] if h.type is not None and not isinstance(h.type, ast.Tuple) else (list(h.type.elts) if h.type is not None else [])
-                    if h.type is None or any(u(t).split('.')[-1] in _NOCONV for t in names):
-                        handler = handler or h
-            node, par = par, mod.parent.get(par)
+
+        def enclosing(c, g, depth=0):
+            """Innermost handler for non-convergence around `c` in `g`; if there is none and `g` is an extracted
+            helper, the handler that encloses EVERY call of the helper."""
+            handler = None
+            node, par = c, mod.parent.get(c)
+            while par is not None and par is not g:
+                if isinstance(par, ast.Try) and any(node is b or any(node is x for x in ast.walk(b)) for b in par.body):
+                    for h in par.handlers:
+                        names = [h.type] if h.type is not None and not isinstance(h.type, ast.Tuple) else (list(h.type.elts) if h.type is not None else [])
+                        if h.type is None or any(u(t).split('.')[-1] in _NOCONV for t in names):
+                            handler = handler or h
+                node, par = par, mod.parent.get(par)
+            if handler is None and g is not fn and depth < 3:
+                sites = [(g2, c2) for g2 in scopes for c2 in walk_local(g2)
+                         if isinstance(c2, ast.Call) and isinstance(c2.func, ast.Name) and c2.func.id == g.name]
+                hs = [enclosing(c2, g2, depth + 1) for g2, c2 in sites]
+                if hs and all(h is not None for h in hs):
+                    handler = hs[0]
+            return handler
+        handler = enclosing(c, g)
         if handler is None:
             ck.bad(rule, mod, c, F, construct,
                    '`%s` is not inside a try that handles ArpackNoConvergence: the Arnoldi iteration is not guaranteed to '
